@@ -171,6 +171,11 @@ def markdown_escape_word(word: str) -> str:
 _md_def_label_pat = re.compile(r"\s*\[(?!\^)(?:[^\[\]\\]|\\.)+\]:")
 
 
+def markdown_starts_like_definition(text: str) -> bool:
+    """A paragraph that begins like a link reference definition (`[label]: and more text`)."""
+    return bool(_md_def_label_pat.match(text))
+
+
 def markdown_first_line_is_rule(lines: list[str]) -> bool:
     """
     A paragraph may begin with a word like `---` (as in `--- and more`). If wrapping leaves
